@@ -2,7 +2,7 @@
    (pointers are addresses, NULL = 0, sizes are size_t values) -> program returning
    the list [return value; extra results...]. *)
 From Coq Require Import List ZArith Bool.
-From SC Require Import ModQuery ModWstr ModEnv ModExt Base Cfg Comb ModStr ModMem ModTok ModTs ModSearch ModConv.
+From SC Require Import ModQuery ModWstr ModEnv ModExt ModExt2 Base Cfg Comb ModStr ModMem ModTok ModTs ModSearch ModConv.
 Import ListNotations.
 Local Open Scope Z_scope.
 Local Open Scope prog_scope.
@@ -21,7 +21,8 @@ Inductive fn :=
 | F_strspn_s | F_strcspn_s | F_strpbrk_s | F_strprefix_s | F_strfirstdiff_s | F_strfirstsame_s | F_wcsnlen_s
 | F_wcscat_s | F_wcsncpy_s | F_wcsncat_s | F_getenv_s
 | F_strtolowercase_s | F_strtouppercase_s | F_strset_s | F_strnset_s | F_strnterminate_s
-| F_strcpyfld_s | F_strcpyfldin_s | F_strcpyfldout_s | F_memccpy_s | F_wmemcpy_s | F_wmemmove_s | F_stpcpy_s | F_stpncpy_s.
+| F_strcpyfld_s | F_strcpyfldin_s | F_strcpyfldout_s | F_memccpy_s | F_wmemcpy_s | F_wmemmove_s | F_stpcpy_s | F_stpncpy_s
+| F_strljustify_s | F_strremovews_s | F_wcsset_s | F_wcsnset_s.
 
 Definition arg (l : list Z) (i : nat) : Z := nth i l 0.
 Definition ret1 (p : prog Z) : prog (list Z) := r <- p ;; Ret [r].
@@ -91,6 +92,10 @@ Definition run_fn (c : cfg) (f : fn) (a : list Z) : prog (list Z) :=
   | F_wmemmove_s => ret1 (wmemmove_s c (arg a 0) (arg a 1) (arg a 2) (arg a 3) (arg a 4) (arg a 5))
   | F_stpcpy_s => ret1 (stpcpy_s c (arg a 0) (arg a 1) (arg a 2) (arg a 3) (arg a 4) (arg a 5))
   | F_stpncpy_s => ret1 (stpncpy_s c (arg a 0) (arg a 1) (arg a 2) (arg a 3) (arg a 4) (arg a 5) (arg a 6))
+  | F_strljustify_s => ret1 (strljustify_s c (arg a 0) (arg a 1) (arg a 2))
+  | F_strremovews_s => ret1 (strremovews_s c (arg a 0) (arg a 1) (arg a 2))
+  | F_wcsset_s => ret1 (wcsset_s c (arg a 0) (arg a 1) (arg a 2) (arg a 3))
+  | F_wcsnset_s => ret1 (wcsnset_s c (arg a 0) (arg a 1) (arg a 2) (arg a 3) (arg a 4))
   end.
 
 (* what the drivers call: configuration, allocation-failure oracle, function, arguments, memory *)
